@@ -40,6 +40,11 @@ def project(nfiles, fmt, mode=None):
     if mode == "suffix":
         # the same bytes outsourced under two suffixes, in two files
         files["test_c.py"] = files["test_c.py"].replace("outsource('data-c')", "outsource(b'data-a')")
+    if mode == "suffix1":
+        # the same bytes under two (three) suffixes in one file, and once more in another file
+        files["test_a.py"] = files["test_a.py"].replace("    assert [1, 2] == snapshot([1])\n", "    assert [1, outsource(b'data-a'), outsource('data-a', suffix='.log')] == snapshot([1])\n")
+        if "test_c.py" in files:
+            files["test_c.py"] = files["test_c.py"].replace("outsource('data-c')", "outsource('data-a', suffix='.log')")
     if mode == "clean":
         # formatter-clean files: the whole file goes through the formatter once more when it is written
         import black
@@ -185,8 +190,8 @@ def _judge(case, files, new_ast, new_bytes=None):
 
 def explore(tier, seed, runner):
     done = []
-    combos = [(3, "black", None), (3, "cmd", None), (3, "black", "trim"), (3, "black", "clean"), (3, "black", "suffix")] if tier == "quick" else (
-        [(n, f, None) for n in (1, 2, 3) for f in ("black", "cmd")] + [(3, "black", "trim"), (3, "cmd", "trim"), (1, "black", "trim"), (3, "black", "clean"), (1, "black", "clean"), (3, "black", "suffix"), (3, "cmd", "suffix")])
+    combos = [(3, "black", None), (3, "cmd", None), (3, "black", "trim"), (3, "black", "clean"), (3, "black", "suffix"), (3, "black", "suffix1"), (1, "black", "suffix1")] if tier == "quick" else (
+        [(n, f, None) for n in (1, 2, 3) for f in ("black", "cmd")] + [(3, "black", "trim"), (3, "cmd", "trim"), (1, "black", "trim"), (3, "black", "clean"), (1, "black", "clean"), (3, "black", "suffix"), (3, "cmd", "suffix"), (3, "black", "suffix1"), (1, "black", "suffix1"), (3, "cmd", "suffix1")])
     rec_tasks = [{"record": {"nfiles": n, "fmt": f, "mode": m}} for n, f, m in combos]
     recs = runner(rec_tasks)
     tasks = []
